@@ -634,7 +634,11 @@ Definition CONSTR_PREFIX := "OMMX_CONSTR_".
 Definition OBJ_NAME := "OBJ".
 
 Definition parse_id_tag (prefix name : string) : option N :=
-  match strip_prefix prefix name with Some r => read_u64 r | None => None end.
+  match strip_prefix prefix name with
+  | Some r => match read_u64 r with
+              | Some n => if String.eqb (print_N n) r then Some n else None
+              | None => None end
+  | None => None end.
 
 Definition get_dvar_kind (c : mcols) (x : string) : N :=
   (if smem x (c_int c) then 2 else if smem x (c_bin c) then 1
